@@ -14,7 +14,7 @@ HOOKS = {
     "guard": "verif",
     "enable": "go test -tags verif (the harness module replaces github.com/itchyny/gojq by /repo; bin/check passes -tags verif to every build)",
     "baseline_off_cmd": "cd /repo && go test -vet=off -count=1 -timeout 25m ./...",
-    "source_commits": [],
+    "source_commits": ["fad162e"],
     "add_only": True,
 }
 
@@ -24,4 +24,4 @@ NOTES = ("bin/check <id> <quick|thorough> rebuilds the property's test binary fr
          "known findings in /verif/known_findings/<id>.json.")
 
 _ALL = ["C%02d" % i for i in range(1, 21)]
-NOT_APPLICABLE = {p: "check not built yet in this session (work in progress; see DESIGN.md section 4)" for p in _ALL}
+NOT_APPLICABLE = {p: "check still under construction in this session (the technique applies; see DESIGN.md section 4): not claimed until it has run clean on the unchanged tree at several seeds" for p in _ALL}
